@@ -358,6 +358,10 @@ func (dr *dirRepo) blobMeta(d digest.Digest, locked bool) (blobMeta, error) {
 
 // BlobCreate is used to create a new blob.
 func (dr *dirRepo) BlobCreate(opts ...BlobOpt) (BlobCreator, string, error) {
+	return dr.blobCreate(false, opts...)
+}
+
+func (dr *dirRepo) blobCreate(locked bool, opts ...BlobOpt) (BlobCreator, string, error) {
 	if *dr.conf.Storage.ReadOnly {
 		return nil, "", types.ErrReadOnly
 	}
@@ -370,8 +374,8 @@ func (dr *dirRepo) BlobCreate(opts ...BlobOpt) (BlobCreator, string, error) {
 			return nil, "", err
 		}
 	}
-	if !dr.existsGet(false) {
-		err := dr.repoInit(false)
+	if !dr.existsGet(locked) {
+		err := dr.repoInit(locked)
 		if err != nil {
 			return nil, "", err
 		}
@@ -390,8 +394,10 @@ func (dr *dirRepo) BlobCreate(opts ...BlobOpt) (BlobCreator, string, error) {
 			return nil, "", types.ErrBlobExists
 		}
 	}
-	dr.mu.Lock()
-	defer dr.mu.Unlock()
+	if !locked {
+		dr.mu.Lock()
+		defer dr.mu.Unlock()
+	}
 	sessionID, err := genSessionID()
 	if err != nil {
 		return nil, "", fmt.Errorf("failed generating sessionID: %w", err)
